@@ -46,6 +46,8 @@ class SZone:
     def __getattr__(self, name):
         if name == "localize" and self.__dict__.get("kind") == "pytz":
             return lambda dt, is_dst=False: localize(self, dt)
+        if name == "normalize" and self.__dict__.get("kind") == "pytz":
+            return lambda dt, is_dst=False: normalize(self, dt)
         raise AttributeError(name)
 
     def utcoffset(self, dt):
@@ -75,6 +77,8 @@ class SVariant:
     def __getattr__(self, name):
         if name == "localize":
             return lambda dt, is_dst=False: localize(self.zone_obj, dt)
+        if name == "normalize":
+            return lambda dt, is_dst=False: normalize(self.zone_obj, dt)
         raise AttributeError(name)
 
     def utcoffset(self, dt):
@@ -219,6 +223,16 @@ def localize(tz, dt):
     if zone.kind == "pytz":
         return with_tz(dt, SVariant(zone, w - i))
     return with_tz(dt, zone)
+
+
+def normalize(zone, dt):
+    """pytz: tz.normalize(aware dt) -> the same instant, carrying the variant in force at it (the
+    wall clock moves when the carried offset was stale)"""
+    from .cal import dt_tz
+
+    if dt_tz(dt) is None:
+        raise ValueError("Naive time - no tzinfo set")
+    return astimezone(dt, zone)
 
 
 _abstracted = {}
